@@ -140,10 +140,15 @@ func c18Lifetimes(x *mc.Cell) {
 				x.Executions++
 				rep := map[string]any{"opens": k, "advance_ns": int64(d), "later_opens": k2}
 				pv, stack := mc.Bubble(x.T, func() {
+					later := false
 					open := func(n *l2node.Node, cnt int) []uint64 {
 						var out []uint64
 						for i := 0; i < cnt; i++ {
 							c, err := n.Mgr.OpenPushDataChannel(context.Background(), doubles.PeerB, doubles.Voucher("T", "v"), doubles.Cid("root"), doubles.AllSelector())
+							if err != nil && later {
+								x.Violate("C18", "later-manager-cannot-open", fmt.Sprintf("open #%d of the later manager (clock advanced by %v after %d opens of the earlier one) failed: %v", i, d, k, err), rep)
+								continue
+							}
 							if err != nil {
 								panic(err)
 							}
@@ -165,6 +170,7 @@ func c18Lifetimes(x *mc.Cell) {
 						panic(err)
 					}
 					defer n2.Stop()
+					later = true
 					b := open(n2, k2)
 					x.Premise++
 					x.Outcome(fmt.Sprintf("%d|%d|%d", k, d, k2))
@@ -176,7 +182,7 @@ func c18Lifetimes(x *mc.Cell) {
 						}
 					}
 					chans, _ := n2.Mgr.InProgressChannels(context.Background())
-					if len(chans) != k+k2 {
+					if len(chans) != k+len(b) {
 						x.Violate("C18", "lifetimes;channels-lost", fmt.Sprintf("%d channels after %d+%d opens", len(chans), k, k2), rep)
 					}
 				})
